@@ -7,6 +7,7 @@ import TinyHttpModel.ConnCase
 import TinyHttpModel.QueueCase
 import TinyHttpModel.PoolCase
 import TinyHttpModel.SrvCase
+import TinyHttpModel.SeqCase
 
 open TH TH.Proto
 
@@ -21,6 +22,7 @@ def handle (line : String) : Option String :=
       else if kind == "queue" then some (QueueCase.run rest)
       else if kind == "pool" then some (PoolCase.run rest)
       else if kind == "srv" then some (SrvCase.run rest)
+      else if kind == "seq" then some (SeqCase.run rest)
       else some ("res id=" ++ get rest "id" ++ " agree=0 diff=unknown-kind:" ++ kind)
     | [] => none
 
